@@ -492,7 +492,7 @@ namespace vw
                 }
             w.ops.push_back(s);
         };
-        const double psnap = mode == MODE_C16 ? 0.7 : (mode == MODE_C08 ? 0.3 : 0.1);
+        const double psnap = mode == MODE_C16 ? 0.7 : ((mode == MODE_C08 || mode == MODE_C10) ? 0.3 : 0.1);
         const bool want_single = mode == MODE_C19 || mode == MODE_C10;
         // Besides the usual shapes below, some worlds get a free-form sequence: any 1..5 operators that the
         // library's own rules accept (a router somewhere; the spanning-tree resolver only on a single-direction
@@ -755,7 +755,7 @@ namespace vw
                     h.d = static_cast<long>(r.below(2));
                     if (h.a == 1 && r.chance(0.4))
                         h.d = 2;  // depth_upstream: supported by the sequential path only
-                    if (!graph_snaps.empty() && r.chance(mode == MODE_C16 ? 0.8 : 0.25))
+                    if (!graph_snaps.empty() && r.chance(mode == MODE_C16 ? 0.8 : (mode == MODE_C10 ? 0.5 : 0.25)))
                         h.name = graph_snaps[r.below(graph_snaps.size())];
                     w.history.push_back(h);
                     continue;
@@ -857,8 +857,8 @@ namespace vw
             std::unique_ptr<world_t> world;
         };
         std::vector<Prefix> prefixes;  // C16
-        if (mode == MODE_C16 || mode == MODE_C08)
-            for (std::size_t i = 0; i < w.ops.size(); ++i)
+        // (names and flags of the snapshots in every mode; the prefix worlds themselves only for C16)
+        for (std::size_t i = 0; i < w.ops.size(); ++i)
                 if (w.ops[i].kind == O_SNAPSHOT)
                 {
                     Prefix p;
